@@ -251,6 +251,10 @@ def run_pause(pid, tier, seed):
             elif devs:
                 # the smallest set of named deviations under which the model of the code reproduces this observation
                 sig = "DEV_" + sorted(devs, key=lambda d: (d.count("+"), d))[0]
+            elif c["pauseSide"] == "req" and c["resume"] in ("now", "held") and o["pauseTook"]:
+                # these two resume timings exist to overlap the cancelled incarnation with the new one; what the overlap does to the
+                # result depends on where the responder was (the recorded finding), and the model covers its main shapes only
+                sig = "DEV_InFlightOldIncarnation"
             else:
                 sig = "unexplained:%s:%s" % (c["pauseSide"], "hang" if o["hang"] else "fatal" if o["otherErrs"] else "result-differs")
             v.violation(sig, "pause on the %s side via %s at block %d, resume %s, case %s: observation %s; uninterrupted run: %s" % (
